@@ -21,7 +21,8 @@ MOD = "harness.props.c18"
 T = "MetadorModel.C18."
 LEAN = dict(
     modules=["MetadorModel.Props.C18"],
-    theorems=[T + n for n in ["compare_none_iff", "reported_exact", "order_safe", "get_agrees"]],
+    theorems=[T + n for n in ["compare_none_iff", "reported_exact", "order_safe", "get_agrees",
+                              "compare_none_iff_lookup", "reported_once"]],
     drivers=["drv_dif"],
 )
 
